@@ -47,8 +47,9 @@ def canonicalize_url(
         hostname = decode_punycode_hostname(hostname)
         hostname = hostname.lower()
 
-    # Dropping HTTP/HTTPS ports
-    if port == 80 or port == 443:
+    # Dropping the scheme's own default port
+    # NOTE: 443 is not the default port of http, nor 80 the one of https
+    if (port == 80 and scheme == "http") or (port == 443 and scheme == "https"):
         port = None
 
     if strip_fragment:
